@@ -1,5 +1,6 @@
 """Rules for hand ranking: shared premises T (tables), S (product search), F (factorisation), R (residual fold),
 E (entry wiring), V (validity) and the checks C01, C02, C03, C04, C05, C08, C09, C13."""
+import re
 from itertools import combinations
 from .base import *
 from .cards import (premise_layout, check_filter_cells, check_comb_table, check_selection, comparison_only, weak_orderings,
@@ -1224,8 +1225,7 @@ def bestof_loop(ctx, path, n, rule, need):
     if len(cfg.loops) == 0:
         return bestof_reduction(ctx, path, n, rule, need, ob, key, sty, k5v)
     if len(cfg.loops) != 1:
-        ob("loop-shape", short(path), False, "expected exactly one loop over the combination table, found %d" % len(cfg.loops), where)
-        return None
+        return bestof_peel(ctx, path, n, rule, need, ob, key, sty, k5v, "expected exactly one loop over the combination table, found %d" % len(cfg.loops))
     h = next(iter(cfg.loops))
     hand = ctx.hand(path, n)
     st = State()
@@ -1233,21 +1233,18 @@ def bestof_loop(ctx, path, n, rule, need):
     st, fid = ex.enter(key, [href], st)
     pre = ex.run_segment(key, 0, st, fid, {h})
     if set(pre) != {h} or pre[h][0]:
-        ob("loop-shape", short(path), False, "the function can return before its candidate loop", where)
-        return None
+        return bestof_peel(ctx, path, n, rule, need, ob, key, sty, k5v, "the function can return before its candidate loop")
     st0 = pre[h][1]
     frame0 = st0.frames[fid]
     st1 = st0.fork()
     outs1 = ex.run_segment(key, h, st1, fid, {h})
     if h not in outs1:
-        ob("loop-shape", short(path), False, "the loop body does not come back to its header", where)
-        return None
+        return bestof_peel(ctx, path, n, rule, need, ob, key, sty, k5v, "the loop body does not come back to its header")
     frame1 = outs1[h][1].frames[fid]
     carried = [l for l in sorted(frame0) if l in frame1 and frame1[l] is not frame0[l]]
     iters = [l for l in carried if frame0[l][0] == "agg" and frame0[l][1][0] == "model"]
     if len(iters) != 1 or frame0[iters[0]][1][1] not in ("ArrayIter", "SliceIter"):
-        ob("loop-shape", short(path), False, "the loop does not iterate over a constant array", where)
-        return None
+        return bestof_peel(ctx, path, n, rule, need, ob, key, sty, k5v, "the loop does not iterate over a constant array")
     l_it = iters[0]
     it0 = frame0[l_it]
     by_ref = it0[1][1] == "SliceIter"
@@ -1255,7 +1252,11 @@ def bestof_loop(ctx, path, n, rule, need):
     rows = arr_of(it0[2][0])
     if by_ref and rows:
         rows = [ex.load(st0, r) for r in rows]
-    got_rows = [[cval(x) for x in arr_of(r)] for r in rows] if rows else None
+    got_rows = None
+    if rows and all(arr_of(r) is not None and all(x[0] == "c" for x in arr_of(r)) for r in rows):
+        got_rows = [[cval(x) for x in arr_of(r)] for r in rows]
+    if got_rows is None or any(len(r) != 5 for r in got_rows):
+        return bestof_peel(ctx, path, n, rule, need, ob, key, sty, k5v, "the loop does not iterate over rows of five slot indexes")
     ob("iterates-table", short(path), got_rows == [list(r) for r in table] and cval(it0[2][1]) == 0,
            "the candidate loop does not iterate over the whole of %s from its first row" % perm_table_name(path).split("cards::")[-1], where)
     # symbolic header state
@@ -1284,8 +1285,7 @@ def bestof_loop(ctx, path, n, rule, need):
     s_exit, names = sym_state([])
     outs_e = ex.run_segment(key, h, s_exit, fid, {h})
     if set(outs_e) != {"ret"} or outs_e["ret"][0]:
-        ob("loop-shape", short(path), False, "with the table exhausted the function does not simply return", where)
-        return None
+        return bestof_peel(ctx, path, n, rule, need, ob, key, sty, k5v, "with the table exhausted the function does not simply return")
     retv = outs_e["ret"][1].frames[fid].get(0)
     if retv[0] != "agg" or len(retv[2]) != 2:
         ob("result", short(path), False, "hand_rank_value_and_hand does not return a (value, hand) pair", where)
@@ -1336,8 +1336,7 @@ def bestof_loop(ctx, path, n, rule, need):
     else:
         ob("no-early-exit", short(path), True)
     if h not in outs:
-        ob("loop-shape", short(path), False, "an iteration of the candidate loop never comes back to the loop header", where)
-        return None
+        return bestof_peel(ctx, path, n, rule, need, ob, key, sty, k5v, "an iteration of the candidate loop never comes back to the loop header")
     g_back, st2 = outs[h]
     fr2 = st2.frames[fid]
     best2, hand2 = fr2[l_best], (fr2[l_hand] if l_hand is not None else None)
@@ -1421,6 +1420,148 @@ def bestof_loop(ctx, path, n, rule, need):
     rep.sample({"rule": rule, "container": short(path), "loop_header_block": h, "carried_locals": carried,
                 "decision_table_cases": 18, "callee": k5v})
     return dict(key=key, callee=k5v, body_obs=body_obs, l_best=l_best, l_hand=l_hand, ex=ex)
+
+
+def bestof_peel(ctx, path, n, rule, need, ob, key, sty, k5v, why):
+    """Best-of written in some other shape than one candidate loop (two passes, nested or chunked loops, index of the
+    best instead of the best): the function is summarised as a whole (every loop has a constant trip count) with the
+    five-card ranking uninterpreted, and the *value* it returns is peeled as a chain of best-so-far updates:
+        B_k = T_k(B_{k-1}, rank(candidate_k)),   B_0 = 0,
+    where each T_k may only depend on its two arguments and must be `smallest non-zero of the two` on every order
+    type; the candidates must be plain copies of receiver slots and cover every five-slot subset.  Only the value
+    clauses can be discharged this way; the witness clauses (C03) stay uncertified for such shapes."""
+    rep, pdb = ctx.rep, ctx.pdb
+    where = pdb.where(key)
+    if {"witness-follows-value", "witness-sorted"} & set(need):
+        ob("loop-shape", short(path), False, why, where)
+        return None
+    sm = ctx.summ(key, [("r", ctx.hand(path, n))], sty, contracts={FIP: fip_contract}, opaque=value_only_opaque(ctx, k5v, need))
+    ret = sm.ret
+    if ret[0] != "agg" or len(ret[2]) != 2:
+        ob("result", short(path), False, "hand_rank_value_and_hand does not return a (value, hand) pair", where)
+        return None
+    V = ret[2][0]
+    tag = "fn:" + k5v
+    calls = []
+    seen = set()
+    for x in walk(V):
+        if x[0] == "call" and x[1] == tag and id(x) not in seen:
+            seen.add(id(x))
+            calls.append(x)
+    rows = {}
+    okc = True
+    for X in calls:
+        cs = arr_of(X[2][0]) if X[2][0][0] == "agg" and X[2][0][1] == ("adt", FIVE, 0) else None
+        if cs is None or len(cs) != 5 or not all(c[0] == "atom" and re.match(r"s\d+$", c[1]) for c in cs):
+            okc = False
+            continue
+        rows[id(X)] = tuple(int(c[1][1:]) for c in cs)
+    ob("candidate-is-five", short(path), okc, "a ranked candidate is not a five-card hand made of plain copies of the receiver's slots", where)
+    ob("candidate-from-row", short(path), okc, "a ranked candidate is not made of plain copies of the receiver's slots", where)
+    if not okc:
+        return None
+    want = {frozenset(c) for c in combinations(range(n), 5)}
+    have = {frozenset(r) for r in rows.values() if len(set(r)) == 5}
+    missing = sorted(sorted(m_) for m_ in want - have)
+    ob("iterates-table", short(path), not missing, "the five-slot subset(s) %s of the hand are never ranked (%d of %d subsets reach the result)" % (missing[:3], len(have & want), len(want)), where)
+    ob("no-early-exit", short(path), not missing, "not every candidate reaches the result", where)
+    # peel the chain
+    memo = {}
+
+    def under(node):
+        r = memo.get(id(node))
+        if r is None:
+            if node[0] == "call" and node[1] == tag:
+                r = frozenset([id(node)])
+            else:
+                r = frozenset()
+                for ch in children(node):
+                    r = r | under(ch)
+            memo[id(node)] = r
+        return r
+
+    def norm(node, X, depth=0):
+        """the same value with every branch simplified under the condition that selects it (an index-of-the-best
+        formulation repeats `not the earlier test` inside the later tests)"""
+        if depth > 8 or node[0] != "ite" or id(X) not in under(node):
+            return node
+        c = node[1]
+        a = substitute(node[2], lambda nd: TRUE if nd is c else None)
+        b = substitute(node[3], lambda nd: FALSE if nd is c else None)
+        return mk_ite(c, norm(a, X, depth + 1), norm(b, X, depth + 1))
+
+    def peel_once(cur, X):
+        r = peel_raw(cur, X)
+        if r is None:
+            cur2 = norm(cur, X)
+            if cur2 is not cur:
+                r = peel_raw(cur2, X)
+        return r
+
+    def peel_raw(cur, X):
+        prevs = {}
+
+        def go(node):
+            if id(X) not in under(node):
+                prevs[id(node)] = node
+                return True
+            if node is X:
+                return True
+            if node[0] == "ite":
+                return go(node[2]) and go(node[3])
+            return False
+        if not go(cur) or len(prevs) > 1:
+            return None
+        prev = next(iter(prevs.values())) if prevs else None
+        ba, xa = atom("$b", "u16"), atom("$x", "u16")
+        if prev is not None and prev[0] != "c":
+            T = substitute(cur, lambda nd: xa if nd is X else (ba if nd is prev else None))
+        else:
+            T = substitute(cur, lambda nd: xa if nd is X else None)
+        return prev, T
+    cur = V
+    remaining = list(calls)
+    steps = 0
+    badv = badz = None
+    stray_all = set()
+    while remaining:
+        found = None
+        for X in reversed(remaining):
+            r = peel_once(cur, X)
+            if r is not None:
+                found = (X, r)
+                break
+        if found is None:
+            ob("loop-shape", short(path), False, why + "; nor is the returned value a chain of best-so-far updates with one step per candidate (peeling stops with %d of %d candidates left)" % (len(remaining), len(calls)), where)
+            return None
+        X, (prev, T) = found
+        stray = set(atoms_of(T)) - {"$b", "$x"}
+        if any(c_ == tag for c_ in calls_of(T)):
+            stray.add("the value of another candidate")
+        stray_all |= stray
+        if not stray:
+            for bv_ in ((0, 5, 9) if (prev is not None and prev[0] != "c") else ((prev[1],) if prev is not None else (0,))):
+                for xv in (0, 3, 5, 7, 9, 12):
+                    got = cval(evaluate(pdb, T, {"$b": bv_, "$x": xv, "$contract:find_in_products": lambda k: C(0, "usize")}))
+                    expv = xv if bv_ == 0 else (xv if (xv != 0 and xv < bv_) else bv_)
+                    if got != expv:
+                        badv = badv or (bv_, xv, got, expv)
+                    if xv != 0 and got == 0:
+                        badz = badz or (bv_, xv)
+            rep.evals(18)
+        cur = prev if prev is not None else C(0, "u16")
+        remaining.remove(X)
+        steps += 1
+    ob("value-only-update", short(path), not stray_all,
+       "a best-so-far update depends on %s besides the best so far and the ranking of its candidate" % sorted(stray_all), where)
+    ob("ranks-one-candidate", short(path), True)
+    ob("keeps-smallest-nonzero", short(path), badv is None, "with best so far %s and candidate value %s an update keeps %s, the smallest non-zero value is %s" % (badv or (0, 0, 0, 0)), where)
+    ob("nonzero-preserving", short(path), badz is None, "with best so far %s and a candidate of value %s the best becomes 0" % (badz or (0, 0)), where)
+    ob("initial-best", short(path), cur[0] == "c" and cur[1] == 0, "the chain of updates does not start from 0 (no hand yet)", where)
+    ob("result-is-running-best", short(path), True)
+    rep.note("%s: %s::hand_rank_value_and_hand is not a single candidate loop (%s); value clauses decided by peeling the returned value into %d best-so-far updates" % (rule, short(path), why, steps))
+    rep.sample({"rule": rule, "container": short(path), "method": "peeled update chain", "updates": steps, "callee": k5v})
+    return dict(key=key, callee=k5v, body_obs=[], ex=sm.ex)
 
 
 def symbolise(v, prefix, counter):
